@@ -611,6 +611,9 @@ func (self AnalyzedMatchExpression) String() string {
 	for _, arm := range self.Arms {
 		arms = append(arms, strings.ReplaceAll(arm.String(), "\n", "\n    "))
 	}
+	if self.DefaultArmAction != nil {
+		arms = append(arms, strings.ReplaceAll(fmt.Sprintf("_ => %s", *self.DefaultArmAction), "\n", "\n    "))
+	}
 	return fmt.Sprintf("match %s {\n    %s\n}", self.ControlExpression, strings.Join(arms, ",\n    "))
 }
 func (self AnalyzedMatchExpression) Type() Type     { return self.ResultType }
